@@ -14,9 +14,12 @@
 //   New$1 (the handler)        atcall clauses at c.Next / at the store calls, and the outcome postconditions
 //   originMatchesHost, refererMatchesHost, (subdomain).match      "same origin or trusted origin"
 //   getRawFromStorage / createOrExtendTokenInStorage / deleteTokenFromStorage and the two managers
-//                               the token store: a ghost set of live tokens per back end; tokens enter it
-//                               only through createOrExtendTokenInStorage (issued by KeyGenerator or live
-//                               already), leave it by expiry (observed at a lookup), single use or DeleteToken
+//                               the token store: storage back end - a ghost set of live tokens (stHas/memHas);
+//                               session back end - DEFINED over the session package's model (the CSRF entry of the
+//                               request's session in the session store, or in the session the session middleware
+//                               owns: zz_contracts_session_verif.go). Tokens enter it only through
+//                               createOrExtendTokenInStorage (issued by KeyGenerator or live already), leave it by
+//                               expiry (observed at a lookup), single use or DeleteToken
 //   (*Handler).DeleteToken, the cookie helpers, the extractors, configDefault, normalizeOrigin, New
 //
 // Obligations that FAIL on the unchanged code for a genuine reason (replays in /verif/replay/known/c16_*):
@@ -152,79 +155,122 @@ package csrf
 //@   ensures cookie-cleared: rcSet[cfg.CookieName] && rcVal[cfg.CookieName] == ""
 
 // ---------------------------------------------------------------------------------------------
-// Token store, session back end: the session of the client that sent request c holds at most one
-// CSRF token: ssHas[c] (present and unexpired), ssKey[c] (the token).
-// The session package's functions have no contracts visible here (their contracts belong to C15's
-// file and a function can have one contract only) and a struct stored in an `any` is opaque to the
-// engine, so the ghost-level meaning of the three methods is given by `defines` clauses (ASSUMED at call
-// sites, not checked); what the bodies decide on their own locals is checked (`ensures`, `atcall`).
+// Token store, session back end: the session of the client that sent request c holds at most one CSRF token.
+// sessLive(store, c, k) / sessHasEntry(store, c) and the export view of the session package's contracts:
+// zz_contracts_session_verif.go. The three methods are checked against those contracts (round C: the former
+// `defines` clauses over a ghost set ssHas/ssKey are gone). They swallow the errors of the session operations
+// (Store.Get: return, Save: log); sessErr counts them, the clauses say "... unless a session operation failed".
 // ---------------------------------------------------------------------------------------------
-//@ ghost ssHas map[ref]bool
-//@ ghost ssKey map[ref]string
+//@ macro sessHasEntry(S, c) = ite(mwLoaded(c), mwHas(c), stHasE(S, reqSid(S, c)))
 
 //@ func (*sessionManager).getRaw
-//@   modifies ssHas, heap
+//@   requires session-store-wf: sessWf(m.session)
+//@   requires no-lock-held: forallI(l, !held(l))
+//@   requires registered-middleware-exists: mwLoaded(c) ==> mwOf(c) != nil
+//@   modifies heap(H_session_Session_ctx), heap(H_session_Session_config), heap(H_session_Session_id), heap(H_session_Session_fresh), heap(H_session_Session_idleTimeout), heap(H_session_Session_data), heap(H_session_data_Data), heap(MD_any_any), heap(MV_any_any), stHas, locHas, locVal, bufStr, gobIn, issued, rqHdrHas, hdrCnt, rhLine, jarHas, jarVal, jarAttr, ckKey, ckVal, ckAttr, jcPath, jcExp, jcPooled, lockToken, sessErr
 //@   atcall @session.(*Middleware).Get: reads-csrf-entry: typeis(key, sessionKeyType)
 //@   atcall @session.(*Session).Get: reads-csrf-entry: typeis(key, sessionKeyType)
 //@   atcall @time.(Time).Before: expiry-against-now: u == last(@time.Now)
 //@   atcall compareTokens: unexpired-and-same-token-before-raw-compare: ok && !last("@time.(Time).Before") && key == token.Key && a == raw && b == token.Raw
-//@   defines found-only-live: result != nil ==> ssHas[c] && ssKey[c] == key
-//@   defines lookup-adds-nothing: forallI(x, ssHas[x] ==> old(ssHas[x]))
+//@   ensures found-only-live-at-entry: result != nil ==> old(sessLive(m.session, c, key))
+//@   ensures found-only-live: result != nil ==> sessLive(m.session, c, key)
+//@   ensures found-only-unexpired: result != nil ==> sessExp(m.session, c) >= clockNow
+//@   ensures lookup-adds-nothing: forallS(k, sessLive(m.session, c, k) ==> old(sessLive(m.session, c, k)))
+//@   ensures session-store-only-shrinks: forallI(o, forallS(k, stHas[o][k] ==> old(stHas[o][k]))) && stVal == old(stVal)
+//@   ensures stored-only-issued: storedIssued(m.session.Storage)
+//@   ensures faults-only-counted: sessErr >= old(sessErr)
+//@   ensures locals-kept-but-the-request-id: localsKeptBut(c, sidKey())
 
 //@ func (*sessionManager).setRaw
-//@   modifies ssHas, ssKey, heap
+//@   requires session-store-wf: sessWf(m.session)
+//@   requires no-lock-held: forallI(l, !held(l))
+//@   requires registered-middleware-exists: mwLoaded(c) ==> mwOf(c) != nil
+//@   modifies heap(H_session_Session_ctx), heap(H_session_Session_config), heap(H_session_Session_id), heap(H_session_Session_fresh), heap(H_session_Session_idleTimeout), heap(H_session_Session_data), heap(H_session_data_Data), heap(MD_any_any), heap(MV_any_any), stHas, stVal, locHas, locVal, bufStr, gobIn, gobOut, issued, rqHdrHas, rqHdrVal, hdrCnt, rhLine, outHdr, outHdrSet, jarHas, jarVal, jarAttr, ckKey, ckVal, ckAttr, jcPath, jcExp, jcPooled, lockToken, sessErr
 //@   atcall @time.(Time).Add: expires-now-plus-exp: t == last(@time.Now) && d == exp
 //@   atcall @session.(*Middleware).Set: writes-csrf-entry: typeis(key, sessionKeyType) && typeis(value, Token)
 //@   atcall @session.(*Session).Set: writes-csrf-entry: typeis(key, sessionKeyType) && typeis(val, Token)
 //@   atcall @session.(*Session).Save: saved-after-write: called("@session.(*Session).Set")
-//@   defines stored-unless-session-fault: (ssHas[c] && ssKey[c] == key) || (ssHas == old(ssHas) && ssKey == old(ssKey))
-//@   defines other-sessions-kept: forallI(x, x != c ==> ssHas[x] == old(ssHas[x]) && ssKey[x] == old(ssKey[x]))
+//@   ensures stored-unless-session-fault: sessErr == old(sessErr) ==> sessLive(m.session, c, key) || sessionReplaced(m.session, c, key)
+//@   ensures stored-with-expiry: sessErr == old(sessErr) && sessLive(m.session, c, key) ==> sessExp(m.session, c) == clockNow + exp
+//@   ensures adds-only-the-token: forallS(k, k != key && sessLive(m.session, c, k) ==> old(sessLive(m.session, c, k)))
+//@   ensures stored-only-issued: storedIssued(m.session.Storage)
+//@   ensures faults-only-counted: sessErr >= old(sessErr)
+//@   ensures locals-kept-but-the-request-id: localsKeptBut(c, sidKey())
 
 //@ func (*sessionManager).delRaw
-//@   modifies ssHas, heap
+//@   requires session-store-wf: sessWf(m.session)
+//@   requires no-lock-held: forallI(l, !held(l))
+//@   requires registered-middleware-exists: mwLoaded(c) ==> mwOf(c) != nil
+//@   modifies heap(H_session_Session_ctx), heap(H_session_Session_config), heap(H_session_Session_id), heap(H_session_Session_fresh), heap(H_session_Session_idleTimeout), heap(H_session_Session_data), heap(H_session_data_Data), heap(MD_any_any), heap(MV_any_any), stHas, stVal, locHas, locVal, bufStr, gobIn, gobOut, issued, rqHdrHas, rqHdrVal, hdrCnt, rhLine, outHdr, outHdrSet, jarHas, jarVal, jarAttr, ckKey, ckVal, ckAttr, jcPath, jcExp, jcPooled, lockToken, sessErr
 //@   atcall @session.(*Middleware).Delete: deletes-csrf-entry: typeis(key, sessionKeyType)
 //@   atcall @session.(*Session).Delete: deletes-csrf-entry: typeis(key, sessionKeyType)
 //@   atcall @session.(*Session).Save: saved-after-delete: called("@session.(*Session).Delete")
-//@   defines deleted-unless-session-fault: !ssHas[c] || ssHas == old(ssHas)
-//@   defines other-sessions-kept: forallI(x, x != c ==> ssHas[x] == old(ssHas[x]))
+// the token is dead in the STORE (the session object handed out by Store.Get is a copy: Delete on it alone changes nothing)
+//@   ensures deleted-unless-session-fault: sessErr == old(sessErr) ==> !sessHasEntry(m.session, c)
+//@   ensures delete-adds-nothing: forallS(k, sessLive(m.session, c, k) ==> old(sessLive(m.session, c, k)))
+//@   ensures stored-only-issued: storedIssued(m.session.Storage)
+//@   ensures faults-only-counted: sessErr >= old(sessErr)
+//@   ensures locals-kept-but-the-request-id: localsKeptBut(c, sidKey())
 
 // ---------------------------------------------------------------------------------------------
 // Token store as the handler sees it (either back end). tokLive(c, k): token k is live for the client
 // of request c. The store objects are named by their entry-state (`old`) identity because the session
 // calls havoc the heap.
 // ---------------------------------------------------------------------------------------------
-//@ macro liveIn(cf, sm, c, k) = ite(old(cf.Session) != nil, ssHas[c] && ssKey[c] == k, ite(old(sm.storage) != nil, stHas[old(sm.storage)][k], memHas[old(sm.memory)][k]))
-//@ macro liveAtEntryIn(cf, sm, c, k) = ite(old(cf.Session) != nil, old(ssHas)[c] && old(ssKey)[c] == k, ite(old(sm.storage) != nil, old(stHas)[old(sm.storage)][k], old(memHas)[old(sm.memory)][k]))
+//@ macro liveIn(cf, sm, c, k) = ite(old(cf.Session) != nil, sessLive(old(cf.Session), c, k), ite(old(sm.storage) != nil, stHas[old(sm.storage)][k], memHas[old(sm.memory)][k]))
+//@ macro liveAtEntryIn(cf, sm, c, k) = ite(old(cf.Session) != nil, old(sessLive(cf.Session, c, k)), ite(old(sm.storage) != nil, old(stHas)[old(sm.storage)][k], old(memHas)[old(sm.memory)][k]))
 //@ macro tokLive(c, k) = liveIn(cfg, storageManager, c, k)
 //@ macro tokLiveAtEntry(c, k) = liveAtEntryIn(cfg, storageManager, c, k)
-//@ macro storeOnlyShrinks() = forallI(s, forallS(k, (stHas[s][k] ==> old(stHas[s][k])) && (memHas[s][k] ==> old(memHas[s][k])))) && forallI(x, ssHas[x] ==> old(ssHas[x]))
-//@ macro storeKeptExcept(c, tok) = forallI(s, forallS(k, k != tok ==> (stHas[s][k] <==> old(stHas[s][k])) && (memHas[s][k] <==> old(memHas[s][k])))) && forallI(x, x != c ==> ssHas[x] == old(ssHas[x]) && ssKey[x] == old(ssKey[x]))
+// no token becomes live / no token but tok becomes live. (Session back end: for the client of request c; the session
+// store's storage holds session ids, not tokens, and Save may add one.)
+//@ macro storeOnlyShrinksIn(cf, c) = ite(old(cf.Session) != nil, forallS(k, sessLive(old(cf.Session), c, k) ==> old(sessLive(cf.Session, c, k))), forallI(s, forallS(k, (stHas[s][k] ==> old(stHas[s][k])) && (memHas[s][k] ==> old(memHas[s][k])))))
+//@ macro storeOnlyShrinks() = storeOnlyShrinksIn(cfg, c)
+//@ macro storeKeptExcept(c, tok) = ite(old(cfg.Session) != nil, forallS(k, k != tok && sessLive(old(cfg.Session), c, k) ==> old(sessLive(cfg.Session, c, k))), forallI(s, forallS(k, k != tok ==> (stHas[s][k] <==> old(stHas[s][k])) && (memHas[s][k] <==> old(memHas[s][k])))))
 //@ macro managersKept() = cfg.Session == nil ==> storageManager.storage == old(storageManager.storage) && storageManager.memory == old(storageManager.memory)
+// the session back end as wired by New, and what the session package wants before every call (C15's system invariant:
+// every id in the session store was issued by the server; no lock is held between the calls)
+//@ macro sessionWired(cf, sm, c) = cf.Session != nil ==> sm != nil && sm.session == cf.Session && sessWf(cf.Session) && forallI(l, !held(l)) && (mwLoaded(c) ==> mwOf(c) != nil)
+//@ macro sessionInvKept(cf, c) = (old(cf.Session) != nil ==> storedIssued(old(cf.Session).Storage) && sessErr >= old(sessErr)) && localsKeptBut(c, sidKey())
 
 //@ func getRawFromStorage
-//@   modifies stHas, memHas, ssHas, heap
+//@   requires session-back-end-wired: sessionWired(cfg, sessionManager, c)
+//@   modifies memHas, heap(H_session_Session_ctx), heap(H_session_Session_config), heap(H_session_Session_id), heap(H_session_Session_fresh), heap(H_session_Session_idleTimeout), heap(H_session_Session_data), heap(H_session_data_Data), heap(MD_any_any), heap(MV_any_any), stHas, locHas, locVal, bufStr, gobIn, issued, rqHdrHas, hdrCnt, rhLine, jarHas, jarVal, jarAttr, ckKey, ckVal, ckAttr, jcPath, jcExp, jcPooled, lockToken, sessErr
 //@   ensures found-only-live: result != nil ==> tokLive(c, token)
+//@   ensures found-only-live-at-entry: result != nil ==> tokLiveAtEntry(c, token)
+//@   ensures session-token-unexpired: old(cfg.Session) != nil && result != nil ==> sessExp(old(cfg.Session), c) >= clockNow
 //@   ensures lookup-adds-nothing: storeOnlyShrinks()
 //@   ensures managers-kept: managersKept()
+//@   ensures session-invariant-kept: sessionInvKept(cfg, c)
 
 //@ func createOrExtendTokenInStorage
-//@   modifies stHas, stVal, memHas, ssHas, ssKey, heap
+//@   requires session-back-end-wired: sessionWired(cfg, sessionManager, c)
+//@   modifies memHas, heap(H_session_Session_ctx), heap(H_session_Session_config), heap(H_session_Session_id), heap(H_session_Session_fresh), heap(H_session_Session_idleTimeout), heap(H_session_Session_data), heap(H_session_data_Data), heap(MD_any_any), heap(MV_any_any), stHas, stVal, locHas, locVal, bufStr, gobIn, gobOut, issued, rqHdrHas, rqHdrVal, hdrCnt, rhLine, outHdr, outHdrSet, jarHas, jarVal, jarAttr, ckKey, ckVal, ckAttr, jcPath, jcExp, jcPooled, lockToken, sessErr
 //@   atcall (*sessionManager).setRaw: token-with-idle-timeout: key == token && exp == cfg.IdleTimeout
 //@   atcall (*storageManager).setRaw: token-with-idle-timeout: key == token && exp == cfg.IdleTimeout
-//@   ensures never-removes: tokLiveAtEntry(c, token) ==> tokLive(c, token)
+//@   ensures never-removes: cfg.Session == nil && tokLiveAtEntry(c, token) ==> tokLive(c, token)
 //@   ensures other-tokens-kept: storeKeptExcept(c, token)
 //@   ensures managers-kept: managersKept()
 //@   ensures live-afterwards-storage: cfg.Session == nil ==> tokLive(c, token)
+// session back end: live unless a session operation failed (counted in sessErr), with the idle timeout as lifetime
+//@   ensures live-afterwards-unless-session-fault: old(cfg.Session) != nil && sessErr == old(sessErr) ==> tokLive(c, token) || sessionReplaced(old(cfg.Session), c, token)
+//@   ensures session-token-lives-idle-timeout: old(cfg.Session) != nil && sessErr == old(sessErr) && tokLive(c, token) ==> sessExp(old(cfg.Session), c) == clockNow + cfg.IdleTimeout
+//@   ensures session-invariant-kept: sessionInvKept(cfg, c)
 // FAILS (genuine, session back end only): sessionManager.setRaw returns silently / only logs when the session cannot be loaded or saved.
+// (It also fails, harmlessly, when the request's session had passed its absolute deadline: Store.Get replaces it by a
+// session with a new id, the token is stored under that id - sessionReplaced - which the response announces.)
 //@   ensures live-afterwards: tokLive(c, token)
 
 //@ func deleteTokenFromStorage
-//@   modifies stHas, memHas, ssHas, heap
+//@   requires session-back-end-wired: sessionWired(cfg, sessionManager, c)
+//@   modifies memHas, heap(H_session_Session_ctx), heap(H_session_Session_config), heap(H_session_Session_id), heap(H_session_Session_fresh), heap(H_session_Session_idleTimeout), heap(H_session_Session_data), heap(H_session_data_Data), heap(MD_any_any), heap(MV_any_any), stHas, stVal, locHas, locVal, bufStr, gobIn, gobOut, issued, rqHdrHas, rqHdrVal, hdrCnt, rhLine, outHdr, outHdrSet, jarHas, jarVal, jarAttr, ckKey, ckVal, ckAttr, jcPath, jcExp, jcPooled, lockToken, sessErr
 //@   atcall (*storageManager).delRaw: the-token: key == token
 //@   ensures delete-adds-nothing: storeOnlyShrinks()
 //@   ensures other-tokens-kept: storeKeptExcept(c, token)
 //@   ensures managers-kept: managersKept()
 //@   ensures dead-afterwards-storage: cfg.Session == nil ==> !tokLive(c, token)
+// session back end: dead IN THE STORE unless a session operation failed (counted in sessErr)
+//@   ensures dead-afterwards-unless-session-fault: old(cfg.Session) != nil && sessErr == old(sessErr) ==> !sessHasEntry(old(cfg.Session), c)
+//@   ensures session-invariant-kept: sessionInvKept(cfg, c)
 // FAILS (genuine, session back end only): sessionManager.delRaw returns silently / only logs when the session cannot be loaded or saved.
 //@   ensures dead-afterwards: !tokLive(c, token)
 
@@ -270,6 +316,9 @@ package csrf
 //@   requires trusted-are-origins: trustedWf(trustedOrigins)
 // New's postcondition trusted-wildcards-shaped (same macro): every wildcard entry is "scheme://" + ".domain"
 //@   requires trusted-wildcards-shaped: wildShaped()
+// New's postcondition session-manager-wired plus the session package's own preconditions (C15: NewStore's store-wf, the
+// system invariant stored-only-issued, no lock held between handlers, a registered session middleware is an object)
+//@   requires session-back-end-wired: sessionWired(cfg, sessionManager, c)
 // -- unsafe methods: what must hold whenever the protected handler is reached
 //@   atcall @fiber.Ctx.Next: unsafe-origin-same-or-trusted: !bypassed() && unsafeMethod(c) ==> originAllowed(c) || (originAbsent(c) && (reqScheme(c, epoch) != "https" || refererAllowed(c)))
 //@   atcall @fiber.Ctx.Next: unsafe-wildcard-origin-is-scheme-and-dot-suffix: !bypassed() && unsafeMethod(c) && !originAbsent(c) && !sameOrigin(c, originLc(c)) && !trustedExact(trustedOrigins, originLc(c)) ==>
@@ -283,10 +332,17 @@ package csrf
 //@   atcall getRawFromStorage: looks-up-presented-token: token == ite(unsafeMethod(c), exTok, cookieTok(c)) && token != ""
 //@   atcall deleteTokenFromStorage: consumes-presented-token: unsafeMethod(c) && old(cfg.SingleUseToken) && token == exTok
 //@   atcall createOrExtendTokenInStorage: single-use-token-consumed: unsafeMethod(c) && old(cfg.SingleUseToken) ==> !tokLive(c, exTok) && called(Config.KeyGenerator) && token == last(Config.KeyGenerator)
+// ... session back end, through the checked chain down to Session.Save (no use of the failing clause dead-afterwards):
+// unless a session operation failed in this activation, the session holds no CSRF entry at all when the new token is stored
+//@   atcall createOrExtendTokenInStorage: single-use-session-token-consumed-unless-session-fault: unsafeMethod(c) && old(cfg.SingleUseToken) && old(cfg.Session) != nil && sessErr == old(sessErr) ==> !sessHasEntry(old(cfg.Session), c)
 //@   atcall createOrExtendTokenInStorage: stores-only-issued-tokens: (called(Config.KeyGenerator) && token == last(Config.KeyGenerator)) || tokLiveAtEntry(c, token)
 //@   atcall createOrExtendTokenInStorage: live-presented-token-is-kept: !(unsafeMethod(c) && old(cfg.SingleUseToken)) && called(getRawFromStorage) && last(getRawFromStorage) != nil ==> token == ite(unsafeMethod(c), exTok, cookieTok(c))
 // -- every request that passes leaves a valid token cookie
 //@   atcall @fiber.Ctx.Next: cookie-carries-live-token: !bypassed() ==> rcSet[old(cfg.CookieName)] && rcVal[old(cfg.CookieName)] != "" && tokLive(c, rcVal[old(cfg.CookieName)])
+// ... session back end, through the checked chain down to Session.Save (no use of the failing clause live-afterwards): unless
+// a session operation failed in this activation, the cookie's token is live in the session of the request - or that session
+// was replaced in the store because it had passed its absolute deadline (the token is then stored under the new id)
+//@   atcall @fiber.Ctx.Next: cookie-carries-live-session-token-unless-session-fault: !bypassed() && old(cfg.Session) != nil && sessErr == old(sessErr) ==> rcVal[old(cfg.CookieName)] != "" && (sessLive(old(cfg.Session), c, rcVal[old(cfg.CookieName)]) || !stHas[old(cfg.Session).Storage][reqSid(old(cfg.Session), c)])
 // -- outcomes
 //@   ensures safe-methods-always-pass: !bypassed() && !unsafeMethod(c) ==> nextCalls == 1 && ehCalls == 0
 //@   ensures next-or-error-handler-once: !bypassed() ==> nextCalls + ehCalls == 1
@@ -296,12 +352,17 @@ package csrf
 // DeleteToken (logout): the token of the CSRF cookie is dead afterwards and the cookie is cleared.
 //@ func (*Handler).DeleteToken
 //@   requires fresh-activation: ehCalls == 0
+//@   requires session-back-end-wired: sessionWired(handler.config, handler.sessionManager, c)
 //@   atcall deleteTokenFromStorage: deletes-cookie-token: token == reqCookie(c, old(handler.config.CookieName), epoch) && token != ""
 //@   ensures cookie-token-dead: reqCookie(c, old(handler.config.CookieName), epoch) != "" ==> result == nil && ehCalls == 0 &&
 //@ ..   !liveIn(handler.config, old(handler.storageManager), c, reqCookie(c, old(handler.config.CookieName), epoch))
 //@   ensures cookie-cleared: reqCookie(c, old(handler.config.CookieName), epoch) != "" ==> rcSet[handler.config.CookieName] && rcVal[handler.config.CookieName] == ""
 //@   ensures no-cookie-is-an-error: reqCookie(c, old(handler.config.CookieName), epoch) == "" ==> ehCalls == 1
-//@   ensures adds-no-token: storeOnlyShrinks()
+// session back end: the token is dead IN THE STORE (session store, or the session the session middleware owns) unless a
+// session operation failed - checked down to Session.Save (the seeded C16-5 drops that Save)
+//@   ensures cookie-token-dead-unless-session-fault: reqCookie(c, old(handler.config.CookieName), epoch) != "" && old(handler.config.Session) != nil && sessErr == old(sessErr) ==> !sessHasEntry(old(handler.config.Session), c)
+// (without a cookie only the configured error handler runs: user code, whose heap effects are not constrained)
+//@   ensures adds-no-token: reqCookie(c, old(handler.config.CookieName), epoch) != "" || old(handler.config.Session) == nil ==> storeOnlyShrinksIn(handler.config, c)
 
 // ---------------------------------------------------------------------------------------------
 // Extractors: a token is returned without error only if it is the non-empty value of the named source.
@@ -417,4 +478,5 @@ package csrf
 //@   ensures wildcard-entries-traced: wildTraced(len(cfg.TrustedOrigins))
 //@   ensures trusted-wildcards-shaped: wildShaped()
 //@   ensures configured-list-kept: len(config) > 0 ==> cfg.TrustedOrigins == old(config[0].TrustedOrigins)
+//@   ensures session-manager-wired: cfg.Session != nil ==> sessionManager != nil && sessionManager.session == cfg.Session
 //@   ensures handler-made: result != nil
